@@ -44,7 +44,10 @@ Definition check_obs (c : c01case) : bool :=
     let gp := gprime Qfops (c_link c) L mu in
     let V := V0 Qfops (c_dist c) L mu in
     let a := asym Qfops tau y mu in
-    Qle_tol tolQ (W * W * gp * gp * V - a * w) (a * w) &&
+    (* the code evaluates the binomial variance as mu * (1 - mu / levels) in binary64: for a saturated mean the subtraction
+       cancels and V carries a relative error of eps * levels / (levels - mu); 2^-48 = 16 eps *)
+    let cancel := match c_dist c with DBinomial => Qabs (L / (L - mu)) | _ => 0 end in
+    Qle_tol (tolQ + (1 # 281474976710656) * cancel) (W * W * gp * gp * V - a * w) (a * w) &&
     Qle_bool (Qabs (pd - W * (lp + (y - mu) * gp))) (tolQ * (Qabs W * (Qabs lp + Qabs (y - mu) * Qabs gp)) + (1 # 10) ^ 300))
   (combine (c_obs c) (combine (c_W c) (c_pd c))).
 
